@@ -606,12 +606,14 @@ func execRun(c *Corpus, rc *refCache, sp *RunSpec, replay *Decisions) *RunResult
 			}
 		}
 		if injected {
-			// narrow relaxation: a step hit by an injected stage failure may fail, but it may not
-			// return a report that differs from the reference
+			// A forced stage failure made this call take an error path. C09 is about what the call leaves
+			// behind, not about the call itself (code may legitimately tolerate a failed sub-step and go on
+			// with less): the step is not judged, every later step is held to full equality.
 			res.Probes["step_with_injected_failure"]++
-			if got.Err || got.Panic != "" {
-				return
+			if !got.Err && got.Panic == "" {
+				res.Probes["injected_failure_tolerated_by_the_call"]++
 			}
+			return
 		}
 		if op.Chan {
 			res.Probes["op_with_event_channel"]++
